@@ -20,6 +20,19 @@ def main(path):
             return 1
         print("NOT-REPRODUCED")
         return 0
+    if rec.get("pair"):
+        key = rec["call"]
+        ra = fresh_interpreter_run(rec["pair"][0], prop)
+        rb = fresh_interpreter_run(rec["pair"][1], prop, hashseed="321")
+        da, db = (ra.get("call_results") or {}).get(key), (rb.get("call_results") or {}).get(key)
+        print(json.dumps({"call": key, "history_a": rec["pair"][0]["config"].get("letters"), "digest_a": da,
+                          "history_b": rec["pair"][1]["config"].get("letters"), "digest_b": db}, indent=1))
+        if da and db and da != db:
+            print("VIOLATION property=%s replay=%s" % (prop, path))
+            print("REPRODUCED: the same call returns different results in the two histories")
+            return 1
+        print("NOT-REPRODUCED")
+        return 0
     prog = rec["program"]
     if "panel" in prog:
         from .coordinator import Pool
